@@ -76,7 +76,7 @@ func (x *c12ctx) expectBestmove(what string, timeout time.Duration) (string, []s
 	l, ok, seen := x.u.waitFor(isBestmove, timeout)
 	x.note(seen)
 	if !ok {
-		dl, sig := engineDeadlocked(inProcessDump())
+		dl, sig := provenDeadlock()
 		if sig == "no engine goroutine" {
 			// nothing is searching and nothing is blocked: the go command was lost
 			c12Unanswered++
@@ -675,6 +675,8 @@ func c12(c *Ctx) {
 			if !x.u.quit(10 * time.Second) {
 				rep.Viol("quit:loop-does-not-end", "quit did not end the UCI loop within 10 s", x.payload(nil))
 			}
+		} else {
+			x.u.dispose()
 		}
 		allSlow = append(allSlow, x.slow...)
 		if sid < 2 {
